@@ -225,6 +225,57 @@ def check(run):
                     stats["hover_agree"] += 1
                 else:
                     wits.append({"kind": "hover on a binder reports %r, its type is %r" % (r.get("ok", r.get("err")), ty), "text": text, "line": q[1], "col": q[2]})
+        # ---- 2d. hover on expressions: callees of every call form, receivers, arguments, fields, instantiated generics ----
+        HX = """struct Pt { px: int32, py: bool }
+impl Pt { fn norm(self: Pt, k: int32) -> int32 { self.px + k } }
+trait Describe { fn describe(Self) -> string; fn weight(Self, int32) -> int32; }
+impl Describe for Pt {
+    fn describe(self: Pt) -> string { "pt" }
+    fn weight(self: Pt, k: int32) -> int32 { k }
+}
+fn label[TP: Describe](item: TP, n: int32) -> string {
+    item.describe() + int32_to_string(item.weight(n)) + Describe::describe(item)
+}
+fn gid[TQ](x: TQ) -> TQ { x }
+fn main() {
+    let pt = Pt { px: 1, py: true };
+    let a1 = pt.norm(2);
+    let a2 = pt.px;
+    let a3 = gid(pt);
+    let a4 = gid(5);
+    let a5 = label(pt, 3);
+    let a6 = Describe::describe(pt);
+    let clo = |q: int32| q + 1;
+    let a7 = clo(4);
+    let tup = (1, "s");
+    let a8 = tup.1;
+    let d: dyn Describe = pt;
+    let a9 = Describe::weight(d, 2);
+    ()
+}
+"""
+        # (line, word, occurrence of the word on that line, the type the typing rules give)
+        HX_EXPECT = [
+            (8, "item", 0, "TP"), (8, "describe", 0, "(TP) -> string"), (8, "int32_to_string", 0, "(int32) -> string"), (8, "item", 1, "TP"), (8, "weight", 0, "(TP, int32) -> int32"), (8, "n", 0, "int32"),
+            (8, "describe", 1, "(TP) -> string"), (8, "item", 2, "TP"), (10, "x", 1, "TQ"),
+            (13, "a1", 0, "int32"), (13, "pt", 0, "Pt"), (13, "norm", 0, "(Pt, int32) -> int32"), (14, "a2", 0, "int32"), (14, "px", 0, "int32"), (15, "a3", 0, "Pt"), (15, "gid", 0, "(Pt) -> Pt"),
+            (16, "a4", 0, "int32"), (16, "gid", 0, "(int32) -> int32"), (17, "a5", 0, "string"), (17, "label", 0, "(Pt, int32) -> string"), (18, "a6", 0, "string"), (18, "describe", 0, "(Pt) -> string"),
+            (19, "clo", 0, "(int32) -> int32"), (19, "q", 0, "int32"), (19, "q", 1, "int32"), (20, "a7", 0, "int32"), (20, "clo", 0, "(int32) -> int32"), (21, "tup", 0, "(int32, string)"), (22, "a8", 0, "string"),
+            (22, "tup", 0, "(int32, string)"), (23, "d", 0, "dyn Describe"), (24, "a9", 0, "int32"), (24, "weight", 0, "(dyn Describe, int32) -> int32"), (24, "d", 0, "dyn Describe"),
+        ]
+        hx_lines = HX.split("\n")
+        hx_qs = []
+        for li, word, occ, ty in HX_EXPECT:
+            cols = [m_.start() for m_ in re.finditer(r"(?<![A-Za-z_0-9])%s(?![A-Za-z_0-9])" % re.escape(word), hx_lines[li])]
+            hx_qs.append(("hover", li, cols[occ]))
+            hx_qs.append(("hover", li, cols[occ] + len(word) - 1))
+        stats["hover_expressions"] = 0
+        for (q, r), (li, word, occ, ty) in zip(zip(hx_qs, run_queries([(HX, hx_qs)])[0]), [e_ for e_ in HX_EXPECT for _ in (0, 1)]):
+            stats["hover_expressions"] += 1
+            if "ok" in r and norm_ty(r["ok"]) == norm_ty(ty):
+                stats["hover_agree"] += 1
+            elif "panic" not in r:
+                wits.append({"kind": "hover on `%s` (line %d) reports %r, the typing rules give %r" % (word, li, r.get("ok", r.get("err")), ty), "text": HX, "line": q[1], "col": q[2]})
         # ---- 2c. every item offered after `x.` type-checks when inserted (receivers of several types and instances) ----
         INSERT_BASE = """struct Bx[T] { v: T, n: int32 }
 impl[T] Bx[T] {
